@@ -103,6 +103,20 @@ Definition reg_endpoints (r : reg) : list endpoint :=
   flat_map (fun e : N * (bool * bool) => (if fst (snd e) then [(fst e, Initiator)] else [])
                      ++ (if snd (snd e) then [(fst e, Responder)] else [])) r.
 
+(* ---- lifecycle after setup ----
+   Client.Stop(): chain-sync, block-fetch, tx-submission, keep-alive, peer-sharing clients end
+   with Protocol.Stop() = UnregisterProtocol(pid, Initiator); the Leios clients' Stop only
+   sends MsgDone and leaves the registration.  A server that receives the peer's Done
+   restarts: Stop() (UnregisterProtocol(pid, Responder)), initProtocol(), Start() (register again). *)
+Inductive lifeev := ClientStop (p : N) | ServerRestart (p : N).
+Definition client_stop_unregisters (p : N) : bool :=
+  negb ((p =? pid_leiosnotify) || (p =? pid_leiosfetch) || (p =? pid_leiosvotes)).
+Definition life_ops (e : lifeev) : list regop :=
+  match e with
+  | ClientStop p => if client_stop_unregisters p then [Unreg p Initiator] else []
+  | ServerRestart p => [Unreg p Responder; Reg p Responder]
+  end.
+
 (* ---- correspondence cases ---- *)
 Fixpoint ep_mem (e : endpoint) (l : list endpoint) : bool :=
   match l with [] => false | x :: r => ep_eqb x e || ep_mem e r end.
@@ -115,7 +129,12 @@ Inductive case :=
 | CSetup (c : config) (n : negotiated) (regs : list endpoint) (mode : N) (strt : list endpoint)
 (* a segment with this raw id sent to the connection: accepted (delivered to a protocol
    of that role) or the connection failed *)
-| CProbe (c : config) (n : negotiated) (raw : N) (accepted : bool).
+| CProbe (c : config) (n : negotiated) (raw : N) (accepted : bool)
+(* lifecycle: after setup, protocol instances were stopped / restarted (events in order);
+   regs = the muxer registrations observed afterwards; probes = segments sent afterwards
+   and whether they were accepted *)
+| CLife (c : config) (n : negotiated) (evs : list lifeev) (regs : list endpoint)
+        (probes : list (N * bool)).
 
 Definition check_case (k : case) : bool :=
   match k with
@@ -124,5 +143,10 @@ Definition check_case (k : case) : bool :=
     && ep_set_eqb (started c n) strt
   | CProbe c n raw accepted =>
     Bool.eqb (match accept_seg c n raw with inr _ => true | inl _ => false end) accepted
+  | CLife c n evs regs probes =>
+    let r := fold_left apply_op (flat_map life_ops evs) (registry c n) in
+    ep_set_eqb (reg_endpoints r) regs
+    && forallb (fun p => Bool.eqb (match route_seg r (mux_mode c n) (fst p) with
+                                   | inr _ => true | inl _ => false end) (snd p)) probes
   end.
 Definition mismatches := failing check_case.
